@@ -345,6 +345,12 @@ func (wf *Workflow) readyToRun(procs map[string]WorkflowProcess) bool {
 			return false
 		}
 	}
+	// A driver process other than the sink is not among procs, but needs to be
+	// fully connected too
+	if wf.driver != WorkflowProcess(wf.sink) && !wf.driver.Ready() {
+		Error.Println(wf.name + ": Not everything connected. Workflow shutting down.")
+		return false
+	}
 	return true
 }
 
